@@ -291,6 +291,10 @@ pub fn dynamic_check(code: &[AI], cert: &Cert, trace: &[rusty_basic::interpreter
     let mut compared = 0usize;
     for w in 0..trace.len() {
         let st = &trace[w];
+        if st.error.is_some() {
+            // an instruction failed: what follows is an error transfer, outside the abstraction
+            return (compared, None);
+        }
         let pc = st.pc;
         if pc >= code.len() {
             return (compared, Some(format!("executed address {} outside the list", pc)));
@@ -318,6 +322,9 @@ pub fn dynamic_check(code: &[AI], cert: &Cert, trace: &[rusty_basic::interpreter
             break;
         }
         let a = &code[pc];
+        if trace[w + 1].error.is_some() {
+            return (compared, None);
+        }
         let next = trace[w + 1].pc;
         let nd = match apply(&c, a) {
             Some(x) => x,
